@@ -111,6 +111,29 @@ def make_peer(kind, clk, encoding=None):
         def finish():
             ctl.script = [('E',)]; ctl.act1()
         return p, write, finish, ctl, [ctl.close]
+    if kind == 'fdsock':
+        # a descriptor whose reads can fail with an error that is not the end of the stream: a connection reset by the peer
+        import socket as _socket
+        a_, b_ = _socket.socketpair()
+        p = fdpexpect.fdspawn(a_.fileno(), timeout=30, encoding=encoding)
+
+        def write(b):
+            b_.sendall(b)
+
+        def finish():
+            try:
+                os.write(a_.fileno(), b'unread')      # the peer closes with data it never read: the reader's next read fails with ECONNRESET
+            except OSError:
+                pass
+            b_.close()
+
+        def cleanup():
+            for s_ in (a_, b_):
+                try:
+                    s_.close()
+                except OSError:
+                    pass
+        return p, write, finish, None, [cleanup]
     peer = T.FdPeer([], 'fd')
     p = fdpexpect.fdspawn(peer.rfd, timeout=30, encoding=encoding)
 
@@ -272,7 +295,7 @@ def run_object(case, all_sync):
         return dict(paused=(None if not tr else (not tr[1].is_reading())), closed=bool(getattr(p, 'closed', False)))
 
     try:
-        with V.Install(clk, case['kind'], p, ctl=ctl):
+        with V.Install(clk, ('fd' if case['kind'] == 'fdsock' else case['kind']), p, ctl=ctl):
             try:
                 fin = loop.run_until_complete(main())
             except V.WouldBlockForever:
@@ -509,6 +532,11 @@ def cancel_case(rng):
 
 
 CORPUS = [
+    # a read fault that is not the end of the stream (connection reset): both forms report the error, neither calls it EOF
+    dict(kind='fdsock', arrivals=[[0.1, 'w', 'hello'], [0.2, 'c']],
+         ops=[dict(mode='a', k='x', pats=[['s', 'zz'], ['E']], T=1.043, gap=0)]),
+    dict(kind='fdsock', arrivals=[[0.1, 'w', 'hello'], [0.2, 'c']],
+         ops=[dict(mode='a', k='x', pats=[['s', 'hello']], T=1.043, gap=0), dict(mode='a', k='x', pats=[['s', 'zz'], ['E'], ['T']], T=0.571, gap=0.5)]),
     # patterns that match the empty string while nothing is pending: the call returns at once and reads nothing
     dict(kind='fd', arrivals=[[0.2, 'w', 'xxab']],
          ops=[dict(mode='a', k='r', pats=[['re', 's', ['star', ['chr', 120]]]], T=1.043, gap=0), dict(mode='a', k='x', pats=[['s', 'ab']], T=1.043, gap=0)]),
@@ -607,8 +635,11 @@ def run(ctx):
                 common.report(ctx, sig, msg, dict(case=c))
             elif first is None:
                 first = (c, d, msg, sig)
-        if any(r['out'].startswith('EXC') for r in a['recs']) and first is None:
-            r = [r for r in a['recs'] if r['out'].startswith('EXC')][0]
+        # an exception other than EOF / TIMEOUT is a finding unless the blocking twin ends the same call with the same exception (a read error
+        # of the transport, e.g. a connection reset, is reported by both forms)
+        odd = [(n, r) for n, r in enumerate(a['recs']) if r['out'].startswith('EXC') and not (n < len(b['recs']) and b['recs'][n]['out'] == r['out'])]
+        if odd and first is None:
+            r = odd[0][1]
             first = (c, (0, 'exception', r['out'], None), 'awaited history raised %s %s' % (r['out'], r.get('exc')), 'async/exception')
     if first:
         c, d, msg, sig = first
@@ -628,6 +659,8 @@ def run(ctx):
                 continue          # an end of stream on a transport left reading: the known finding (b), outside the model
             if c.get('encoding'):
                 continue          # unicode mode: judged against the blocking twin (the codec is outside this model; C07)
+            if any(r['out'].startswith('EXC') for r in a['recs']):
+                continue          # a read error of the transport is not an event of the model: judged against the blocking twin
             if any(ev[0] == 'd' and ev[2] for r_ in a['recs'] for ev in a['log'][r_['n0']:r_['n1']]):
                 continue          # data delivered in the done-window of a call (after its future was done, before the pause took effect)
             dm = compare_model(c, a, ml)
